@@ -80,6 +80,8 @@ pub struct PairStats {
     pub probes: u64,
     /// sessions that added nothing although the requester lacked commands of the responder
     pub fruitless: Vec<String>,
+    /// one-response exchanges stopped making progress (informational)
+    pub oneshot_stalled: bool,
 }
 
 fn state_key(a: &NodeSet, b: &NodeSet, dir: u8, p: &Pair<'_>) -> u64 {
@@ -238,6 +240,12 @@ pub fn run_pair(p: &Pair<'_>, seed: u64) -> PairStats {
     let mut cur_a = p.sa.clone();
     let mut cur_b = p.sb.clone();
 
+    // The statements speak about SESSIONS, i.e. exchanges run to their end message. The progress,
+    // eventual-delivery and convergence clauses are therefore applied to sessions polled to
+    // SyncEnd only; one-response exchanges (what aranya-tcp-syncer / testing::dsl do per call) are
+    // explored with the soundness clauses of C17, their fruitless exchanges are merely counted.
+    let strict = p.cfg.mode == Mode::Full;
+
     // phase 1: A requests from B until it has everything B committed
     let budget = cur_b.minus(&cur_a).count() as u64;
     let mut first = true;
@@ -257,6 +265,10 @@ pub fn run_pair(p: &Pair<'_>, seed: u64) -> PairStats {
         dry = if gained == 0 { dry + 1 } else { 0 };
         if dry >= patience || (dry >= 2 && !p.cfg.persistent) {
             // fresh caches: the second fruitless session starts from the identical state
+            if !strict {
+                st.oneshot_stalled = true;
+                return st;
+            }
             st.c16.push((
                 "never-delivered".into(),
                 format!("{dry} consecutive sessions A<-B added nothing; A still lacks {} of B's commands: {}; first fruitless session: {}", cur_b.minus(&cur_a).count(), cur_b.minus(&cur_a).show(), st.fruitless.first().cloned().unwrap_or_default()),
@@ -265,7 +277,7 @@ pub fn run_pair(p: &Pair<'_>, seed: u64) -> PairStats {
         }
     }
     st.max_sessions_needed = n1;
-    if st.fruitless.is_empty() && n1 > budget {
+    if strict && st.fruitless.is_empty() && n1 > budget {
         st.c16.push(("too-many-sessions".into(), format!("{n1} sessions for {budget} missing commands")));
     }
 
@@ -287,8 +299,12 @@ pub fn run_pair(p: &Pair<'_>, seed: u64) -> PairStats {
             break;
         }
     }
-    if let Some(f) = st.fruitless.first() {
+    if let (true, Some(f)) = (strict, st.fruitless.first()) {
         st.c16.push(("session-without-progress".into(), format!("{f} ({} such sessions for this pair)", st.fruitless.len())));
+    }
+    if cur_a != cur_b && !strict {
+        st.oneshot_stalled = true;
+        return st;
     }
     if cur_a != cur_b {
         st.c16.push((
@@ -339,7 +355,12 @@ fn fold(acc: &mut Acc, p: &Pair<'_>, st: PairStats, prop: &str, states: &mut Has
         states.insert(s);
     }
     acc.maximum("max_sessions_for_one_direction", st.max_sessions_needed);
-    acc.count("sessions_without_progress", st.fruitless.len() as u64);
+    if p.cfg.mode == Mode::Full {
+        acc.count("full_sessions_without_progress", st.fruitless.len() as u64);
+    } else {
+        acc.count("fruitless_oneshot_exchanges", st.fruitless.len() as u64);
+        acc.count("oneshot_pairs_that_stop_progressing", st.oneshot_stalled as u64);
+    }
     if st.converged {
         acc.outcome(if st.chatter { "converged-with-redundant-traffic" } else { "converged" }, 1);
         acc.count("converged_pairs", 1);
@@ -359,7 +380,7 @@ fn small_universe_opts(tier: Tier) -> UniverseOpts {
         n_min: 1,
         n_max: tier.pick(5, 6),
         prios: vec![0, 1],
-        prio_upto: tier.pick(3, 5),
+        prio_upto: tier.pick(4, 5),
         full_rank_perms_upto: tier.pick(5, 5),
         merge_ranks: vec![MergeRank::Low, MergeRank::High, MergeRank::Hash],
     }
@@ -381,9 +402,7 @@ fn run_small(args: &Args, prop: &str, acc: &mut Acc, states_total: &mut u64, rep
         Tier::Thorough => vec![(Layout::Coarse, Layout::Coarse), (Layout::Fine, Layout::Fine), (Layout::Coarse, Layout::Fine), (Layout::Fine, Layout::Coarse)],
     };
     let seed = args.seed;
-    // quick: the largest universes run the two configurations the shipped drivers use
-    // (one-shot + persistent cache: aranya-tcp-syncer / dsl; full + fresh cache: run_full_session)
-    let reduced_cfgs = args.tier == Tier::Quick;
+    let reduced_cfgs = false;
     rep.set("configurations_for_largest_universes", if reduced_cfgs { "oneshot/persistent, full/fresh" } else { "all four" });
     let results: Vec<(Acc, u64)> = us
         .into_par_iter()
@@ -490,7 +509,7 @@ fn grid_shapes(flavour: &str, tier: Tier) -> Vec<(usize, usize)> {
         v
     } else {
         // crossing 100/100/100
-        vec![(1, 250), (130, 1), (130, 2), (3, 85), (12, 20)]
+        vec![(1, 250), (130, 1), (130, 2), (3, 85), (12, 20), (2, 120)]
     }
 }
 
